@@ -372,5 +372,10 @@ def run(ctx):
     rep.check(r4, okf, 'change-request:flag-bits', detf, '%s:%d' % (tf.file, tf.line))
     dispatch_sound(ctx, 'C15', 'a binding request reaches the STUN responder')
     no_abort_in(ctx, 'C15', r'proto::stun::', 'answering STUN')
+    # the change-port answer leaves from (dport + 1) mod 2^16 only if the UDP layer uses the port the responder chose
+    # whatever its value: a test on a port value there (a "never send from port 0" fallback) breaks the wrap at 65535.
+    # C19-R2 decides "no branch of udp::repl depends on a port value" on the same facts.
+    borrowed_rule(ctx, 'C15', 'RP', 'the UDP layer sends from the port the STUN responder left in ClientInfo whatever its value: no branch of udp::repl depends on a port number (C19-R2 layer_4::udp::repl:branches, same facts)',
+                  'C19', lambda r_, k_: r_ == 'C19-R2' and k_ == 'layer_4::udp::repl:branches', floor=1)
 
 
